@@ -43,7 +43,10 @@ var ntWhere = []string{
 	"'k2' < key", "key between 'k2' and 'a'", "key in ('k3', 'k1', 'k3') | key > 'z'", "(key ^= 'k' | key = 'a') & int(value) > 1",
 }
 
-var ntSelects = []struct{ fields, group string; orders []string }{
+var ntSelects = []struct {
+	fields, group string
+	orders        []string
+}{
 	{"*", "", []string{"value desc", "key", "key desc"}},
 	{"key, value", "", []string{"value desc", "key desc", "value, key desc"}},
 	{"upper(value) as u, key", "", []string{"u", "key desc"}},
